@@ -219,6 +219,20 @@ func Gen(prop, tier string, seed uint64) *kernel.Plan {
 			evs = append(evs, e)
 		case 3:
 			e := Ev{T: "par", S: g.U64() % 100000}
+			if (prop == "C12" || prop == "C06" || prop == "C05") && nAct >= 3 && g.Chance(1, 3) {
+				// one request holds the lock of a datatype while the database is slow, a second one waits
+				// until its lease runs out, a third one arrives right after that
+				p := []int{0, 1, 2}
+				if nAct > 3 {
+					p = []int{a, (a + 1) % nAct, (a + 2) % nAct}
+				}
+				sh := g.Intn(3)
+				e.Par = []int{p[sh], p[(sh+1)%3]}
+				e.Late = []int{p[(sh+2)%3]}
+				e.MF = []MongoFault{{At: g.Range(3, 9), Kind: "slow"}}
+				evs = append(evs, c.localEv(e.Par[0]), c.localEv(e.Late[0]), e)
+				break
+			}
 			for k := g.Range(2, nAct+1); k > 0; k-- {
 				e.Par = append(e.Par, g.Intn(nAct))
 			}
@@ -371,8 +385,90 @@ func Gen(prop, tier string, seed uint64) *kernel.Plan {
 			}
 		}
 	}
+	vary(prop, kernel.NewRng(seed).Derive("vary"), &cfg, evs)
 	cb, _ := json.Marshal(cfg)
 	return &kernel.Plan{Engine: "B", Property: prop, Seed: seed, Config: cb, Events: encodeEvents(evs)}
+}
+
+// vary changes, per run, things no property depends on (swarm style), from a stream of its own so that
+// the rest of the plan is what it was: the names of the keys, which of the three optional handlers an
+// application registers, the order of the packs in requests and answers.
+func vary(prop string, g *kernel.Rng, cfg *Config, evs []Ev) {
+	cfg.PackOrder = prop == "C12" || g.Chance(1, 2)
+	// handlers: bit 1 = no state-change handler, 2 = no remote-operation handler, 4 = no error handler
+	hv := g.Chance(1, 5) || (prop == "C13" && g.Chance(1, 3))
+	style := g.Intn(4) // 0,1: the plain names; 2: document-<n>; 3: arbitrary
+	names := map[string]string{}
+	rename := func(k string) string {
+		if style < 2 || k == "" {
+			return k
+		}
+		if n, ok := names[k]; ok {
+			return n
+		}
+		var n string
+		for {
+			if style == 2 {
+				n = fmt.Sprintf("document-%d", g.Intn(1000))
+			} else {
+				const chars = "abcdefghijklmnopqrstuvwxyzABCDEFGHIJKLMNOPQRSTUVWXYZ0123456789_-."
+				b := make([]byte, g.Range(1, 24))
+				for i := range b {
+					b[i] = chars[g.Intn(len(chars)-3*btoi(i == 0))]
+				}
+				n = string(b)
+			}
+			dup := false
+			for _, o := range names {
+				dup = dup || o == n
+			}
+			if !dup {
+				break
+			}
+		}
+		names[k] = n
+		return n
+	}
+	observer := (prop == "C12" || prop == "C06" || prop == "C05") && g.Chance(1, 2)
+	var walk func(es []Ev)
+	walk = func(es []Ev) {
+		for i := range es {
+			e := &es[i]
+			switch e.T {
+			case "sync", "par":
+				if observer && g.Chance(1, 3) {
+					e.Rd = 1
+					if e.S == 0 {
+						e.S = 1 + g.U64()%100000
+					}
+				}
+			case "open":
+				e.K = rename(e.K)
+				if hv && g.Chance(1, 2) {
+					e.N = g.Range(1, 7)
+				}
+			case "patch":
+				if e.K == "" {
+					e.K = "k1"
+				}
+				e.K = rename(e.K)
+			case "parpatch":
+				if e.K == "" {
+					e.K = "restkey"
+				}
+				e.K = rename(e.K)
+			}
+			walk(e.Body)
+		}
+	}
+	walk(evs)
+}
+
+func btoi(b bool) int {
+	if b {
+		return 1
+	}
+	return 0
 }
 
 // decorate adds the property's fault / scheduling modifiers to a sync event.
